@@ -393,6 +393,31 @@ class ExprGen:
         a, b = self.num(d - 1), self.num(d - 1)
         return "%s %s %s" % (self.wrap(*a), op, self.wrap(*b)), {"op": op, "args": [a[1], b[1]]}
 
+    def chain(self, d):
+        """3-4 terms of the SAME logical operator: left-nested (`a or b or c`, as the parser associates), right-nested
+        (`a or (b or c)`), or with a chain of the other operator as one term (`a or b or (c and d and e)`)."""
+        rng = self.rng
+        op = rng.choice(["and", "or"])
+        n = rng.randint(3, 4)
+        terms = [self.boolean(min(d - 2, 0)) for _ in range(n)]
+        if rng.random() < 0.35:
+            other = "or" if op == "and" else "and"
+            sub = [self.boolean(0) for _ in range(3)]
+            src = "%s %s %s %s %s" % (self.wrap(*sub[0]), other, self.wrap(*sub[1]), other, self.wrap(*sub[2]))
+            spec = {"op": other, "args": [{"op": other, "args": [sub[0][1], sub[1][1]]}, sub[2][1]]}
+            terms[rng.randrange(n)] = (src, spec)
+        if rng.random() < 0.55:      # left-nested, no parentheses between the terms
+            src, spec = self.wrap(*terms[0]), terms[0][1]
+            for t in terms[1:]:
+                src = "%s %s %s" % (src, op, self.wrap(*t))
+                spec = {"op": op, "args": [spec, t[1]]}
+            return src, spec
+        src, spec = self.wrap(*terms[-1]), terms[-1][1]
+        for t in reversed(terms[:-1]):
+            src = "%s %s (%s)" % (self.wrap(*t), op, src)
+            spec = {"op": op, "args": [t[1], spec]}
+        return src, spec
+
     def boolean(self, d):
         rng = self.rng
         r = rng.random()
@@ -404,6 +429,8 @@ class ExprGen:
         if r < 0.35:
             a = self.boolean(d - 1)
             return "not %s" % self.wrap(*a), {"op": "not", "args": [a[1]]}
+        if r < 0.47:
+            return self.chain(d)
         if r < 0.55:
             op = rng.choice(["and", "or"])
             a, b = self.boolean(d - 1), self.boolean(d - 1)
@@ -504,7 +531,7 @@ def gen_class(rng, cname, opts, used, extern=None, depth=3):
             eqsrc.append("  %s = %s;" % (s["name"], src))
             eqs.append({"eq": [{"ref": s["name"]}, sp]})
     if discrete_targets or rng.random() < 0.25:
-        cond = g.boolean(2)
+        cond = g.chain(2) if rng.random() < 0.35 else g.boolean(2)
         body, bsrc = [], []
         for s in discrete_targets:
             rhs = g.boolean(1) if s["type"] == "Boolean" else g.num(2)
@@ -637,6 +664,99 @@ def gen_model(rng, opts):
     return {"text": text, "cls": "M", "flat": [flat], "stream": opts["stream"]}
 
 
+def class_text(c):
+    return "model M\n%s\nequation\n%s\nend M;\n" % ("\n".join(c["decls"]), "\n".join(c["eqsrc"]))
+
+
+def py_value(lit):
+    kind, text = lit
+    return {"int": int, "real": float, "bool": lambda t: t == "True", "str": str}[kind](text)
+
+
+def gen_edit_session(rng):
+    """generate / edit the SAME tree in place through the ast API / generate again, several times."""
+    used = set()
+    base = gen_class(rng, "M", {"nvars": 4}, used, depth=2)
+    donor = gen_class(rng, "M", {"nvars": 4}, used, depth=2)        # disjoint names
+    syms = [dict(x, prefixes=list(x["prefixes"])) for x in base["symbols"]]
+    eqs = list(base["equations"])
+    steps = [{"do": "parse", "slot": "t", "text": class_text(base)}, {"do": "parse", "slot": "d", "text": class_text(donor)}]
+
+    def export():
+        steps.append({"do": "export", "slot": "t", "content": len(steps), "expect": [finish_flat("M", syms, eqs)]})
+    export()
+    free_syms = list(donor["symbols"])
+    used_eqs = set()
+    direct = set()
+    for _ in range(rng.randint(3, 6)):
+        # a parsed declaration keeps start/value as a modification that flatten re-applies: setting the attribute
+        # is an effective edit only where the declaration has no such modification (or we set it ourselves before)
+        can = {"start": [x for x in syms if x["start"] is None or (x["name"], "start") in direct],
+               "value": [x for x in syms if ({"parameter", "constant"} & set(x["prefixes"]))
+                         and (x["value"] is None or (x["name"], "value") in direct)]}
+        ops = ["set_prefixes"] + (["set_start"] * 2 if can["start"] else [])
+        if free_syms:
+            ops += ["add_symbol"] * 2
+        free_eqs = [j for j in range(len(donor["equations"])) if j not in used_eqs]
+        if free_eqs:
+            ops += ["add_equation"] * 2
+        if len(eqs) > 1:
+            ops.append("remove_equation")
+        if can["value"]:
+            ops += ["set_value"] * 3
+        op = rng.choice(ops)
+        if op == "add_symbol":
+            x = free_syms.pop(rng.randrange(len(free_syms)))
+            syms.append(dict(x, prefixes=list(x["prefixes"])))
+            steps.append({"do": "add_symbol", "slot": "t", "donor": "d", "name": x["name"]})
+        elif op == "add_equation":
+            j = rng.choice(free_eqs)        # (the same Equation object twice would be a shared AST node)
+            used_eqs.add(j)
+            eqs.append(donor["equations"][j])
+            steps.append({"do": "add_equation", "slot": "t", "donor": "d", "index": j})
+        elif op == "remove_equation":
+            j = rng.randrange(len(eqs))
+            eqs.pop(j)
+            steps.append({"do": "remove_equation", "slot": "t", "index": j})
+        elif op == "set_prefixes":
+            x = rng.choice(syms)
+            x["prefixes"] = rng.choice([[], ["parameter"], ["discrete"], ["input"], ["constant"], ["parameter", "input"], ["discrete", "output"]])
+            steps.append({"do": "set_prefixes", "slot": "t", "name": x["name"], "prefixes": x["prefixes"]})
+        else:
+            attr = "start" if op == "set_start" else "value"
+            x = rng.choice(can[attr])
+            direct.add((x["name"], attr))
+            lit = lit_of(rng, x["type"])[1]["lit"]
+            x[attr] = lit
+            steps.append({"do": "set_attr", "slot": "t", "name": x["name"], "attr": attr, "v": py_value(lit)})
+        export()
+    return {"kind": "session", "cls": "M", "steps": steps, "stream": "session-edit"}
+
+
+def gen_loop_session(rng, n_models, n_clones):
+    """different models with the SAME class name exported one after another in one process, every tree dropped
+    before the next one exists: freshly parsed texts, then deep copies of kept prototypes in rotation."""
+    steps = []
+    protos = []
+    for i in range(n_models):
+        r = rng.random()
+        stream = "decl" if r < 0.2 else ("hier" if r < 0.4 else "plain")
+        m = gen_model(rng, {"stream": stream, "decl": stream == "decl", "hier": stream == "hier", "nvars": rng.randint(2, 4)})
+        protos.append(m)
+        steps += [{"do": "parse", "slot": "t", "text": m["text"]},
+                  {"do": "export", "slot": "t", "content": "m%d" % i, "expect": m["flat"]},
+                  {"do": "drop", "slot": "t"}]
+    keep = protos[:6]
+    for i, m in enumerate(keep):
+        steps.append({"do": "parse", "slot": "p%d" % i, "text": m["text"]})
+    for k in range(n_clones):
+        i = rng.randrange(len(keep))
+        steps += [{"do": "clone", "slot": "t", "from": "p%d" % i},
+                  {"do": "export", "slot": "t", "content": "m%d" % i, "expect": keep[i]["flat"]},
+                  {"do": "drop", "slot": "t"}]
+    return {"kind": "session", "cls": "M", "steps": steps, "stream": "session-loop"}
+
+
 FIXED_CASES = [
     # (stream, text, intended flat or None)
     ("decl", "model M\n  Real x = 3;\nend M;\n",
@@ -734,6 +854,12 @@ def ascii_only(x):
 
 
 # ---------------------------------------------------------------------------------------------
+def strip_session(x):
+    """what the child gets / what a replay file holds: the steps without the expected flat models"""
+    return {"kind": "session", "cls": x["cls"],
+            "steps": [{k: v for k, v in st.items() if k != "expect"} for st in x["steps"]]}
+
+
 def behavioural_variant(ctx):
     """Does the real generator lose the left operand of a declaration-value equation?  (True/False/None)"""
     case = {"text": FIXED_CASES[0][1], "cls": "M"}
@@ -776,7 +902,25 @@ def run(ctx):
             cases.append({"text": open(p).read(), "cls": cls, "flat": None, "stream": "corpus:" + fn})
         except OSError:
             pass
+    sessions = [gen_edit_session(ctx.rng) for _ in range(ctx.scaled(8, 120))]
+    sessions += [gen_loop_session(ctx.rng, ctx.scaled(16, 60), ctx.scaled(40, 200)) for _ in range(ctx.scaled(1, 6))]
     results = core.run_child(ctx, "c25", [{"text": c["text"], "cls": c["cls"]} for c in cases], timeout=1500)
+    sres = core.run_child(ctx, "c25", [strip_session(x) for x in sessions], timeout=1500)
+    # every export of a session is one more (expected flat model, result) pair, with the whole session as its input
+    n_single = len(cases)
+    id_reuse = 0
+    for x, r in zip(sessions, sres):
+        exps = [st for st in x["steps"] if st["do"] == "export"]
+        recs = r.get("exports")
+        if recs is None or len(recs) != len(exps):
+            core.report(ctx, "session-raised", "a multi-export session failed in the child: %s" % json.dumps(r)[:300],
+                        {"input": {"session": strip_session(x), "cls": x["cls"]}, "stream": x["stream"], "observed": r})
+            continue
+        for k, (st, rec) in enumerate(zip(exps, recs)):
+            id_reuse += bool(rec.get("tid_seen_before"))
+            cases.append({"text": "(export %d of a %s)" % (k, x["stream"]), "cls": x["cls"], "flat": st["expect"],
+                          "stream": x["stream"], "session": x, "export": k})
+            results.append(rec)
 
     # ---- (a) oracle, (b) correspondence inputs
     enc, enc_idx = [], []
@@ -787,6 +931,9 @@ def run(ctx):
         st = c["stream"].split(":")[0]
         dist[st] = dist.get(st, 0) + 1
         payload = {"input": {"text": c["text"], "cls": c["cls"], "flat": c["flat"]}, "stream": c["stream"]}
+        if "session" in c:
+            payload = {"input": {"session": strip_session(c["session"]), "cls": c["cls"], "export": c["export"],
+                                 "flat": c["flat"]}, "stream": c["stream"]}
         in_subset = c["flat"] is not None
         if "xml" not in r or "flat" not in r:
             key = "%s:%s" % (c["stream"], r.get("gen_exc") or r.get("flat_exc") or r.get("exc") or r.get("parse") or r.get("crash"))
@@ -813,14 +960,14 @@ def run(ctx):
             if v:
                 core.report(ctx, v[0], v[1], dict(payload, observed_xml=r["xml"], reference=ref))
                 break
-        if not u and ascii_only([cflat, r["xml"]]):
+        if not u and ascii_only([cflat, r["xml"]]) and not (c["stream"] == "session-loop" and c["export"] >= ctx.scaled(6, 40)):
             try:
                 obs = parse_xml(r["xml"])
             except NotMirrored:
                 continue
             enc.append("(%s, %s, %s)" % (cq_bool(mv), enc_flat(cflat), enc_xml(obs)))
             enc_idx.append(i)
-        if in_subset and len(c["flat"][0]["equations"]) >= 2:
+        if in_subset and len(c["flat"][0]["equations"]) >= 2 and "session" not in c:
             nontrivial.add(c["text"])
     ctx.oblige("harness:intended-flat-model-equals-pymoca-flatten", not spec_mismatch,
                "cases %s; first: %s" % (spec_mismatch[:5], json.dumps({"text": cases[spec_mismatch[0]]["text"],
@@ -856,7 +1003,13 @@ def run(ctx):
                        "model with >= 2 flat equations, distinct texts" % (n_gen, len(FIXED_CASES), len(OUTSIDE),
                                                                            len(CORPUS_MODELS), n_judged, len(enc)))
     ctx.cov["samples"] = [cases[len(FIXED_CASES)]["text"], cases[len(FIXED_CASES) + 1]["text"]]
-    ctx.notes["input_distribution"] = {"streams": dist, "outside_and_corpus_outcomes": outcomes}
+    ctx.cov["rule"] += ("; plus %d multi-export sessions in one process (%d exports: generate / in-place edit through the ast "
+                        "API / generate on one tree; different models of the same class name parsed or cloned, exported and "
+                        "dropped in turn), each export judged against the flat model of the tree passed in at that step; "
+                        "exports whose tree object had the id of an earlier, different tree: %d"
+                        % (len(sessions), len(cases) - n_single, id_reuse))
+    ctx.notes["input_distribution"] = {"streams": dist, "outside_and_corpus_outcomes": outcomes,
+                                       "session_exports": len(cases) - n_single, "tree_id_reused_with_other_content": id_reuse}
     ctx.assumptions += [
         "lxml serialises the element tree faithfully (escaping is lxml's); the rose tree is re-read with the stdlib expat parser",
         "the subset: scalar variables of builtin type with literal start/value/fixed, equations over references, literals, "
@@ -870,6 +1023,23 @@ def run(ctx):
 def replay(ctx, path):
     rec = json.load(open(path))
     inp = rec.get("input") or rec.get("replay")
+    if "session" in inp:
+        r = core.run_child(ctx, "c25", [inp["session"]])[0]
+        if "exports" not in r:
+            print("replay: the session failed in the child:", json.dumps(r)[:300])
+            return 1
+        for k, e in enumerate(r["exports"]):
+            if "xml" not in e or "flat" not in e:
+                print("replay: export %d: generate()/flatten failed: %s" % (k, json.dumps(e)[:200]))
+                return 1
+            refs = ([inp["flat"]] if k == inp.get("export") and inp.get("flat") else []) + [strip_flat(e["flat"])]
+            for ref in refs:
+                v = None if unsupported(ref) else judge(ref, e["xml"])
+                if v:
+                    print("replay: export %d of the session does not mirror the tree passed in [%s]: %s" % (k, v[0], v[1]))
+                    return 1
+        print("replay: every export of the session mirrors the tree passed in at that step")
+        return 0
     r = core.run_child(ctx, "c25", [{"text": inp["text"], "cls": inp["cls"]}])[0]
     if "xml" not in r or "flat" not in r:
         print("replay: generate()/flatten failed:", json.dumps(r)[:300])
